@@ -10,6 +10,7 @@ func init() {
 			writerFlushFragmentRules(c, "C06")
 			writerMethodRules(c, "C06")
 			writerWriteRules(c, "C06")
+			writerGrowRules(c, "C06")
 		},
 	})
 }
